@@ -21,11 +21,24 @@ use std::path::{Path, PathBuf};
 use std::sync::Mutex;
 use std::sync::atomic::{AtomicBool, AtomicU64, Ordering};
 use targets::{CROSS_TARGETS, Entry, Tgt};
-use vcore::obs::panic_site;
+
 use vcore::rng::{Rng, fnv_parts};
 use vcore::run::{Finish, Run, Tier, par_range, par_range_chunk};
 
 static FINISHING: AtomicBool = AtomicBool::new(false);
+
+/// `file:line` of a panic, with machine-specific path prefixes removed
+/// (`…/registry/src/<hash>/crate-x.y.z/src/f.rs:1` -> `crate-x.y.z/src/f.rs:1`, `/repo/src/de.rs:1` -> `src/de.rs:1`).
+pub fn panic_site(desc: &str) -> String {
+    let s = vcore::obs::panic_site(desc);
+    if let Some(p) = s.find("/registry/src/") {
+        let rest = &s[p + "/registry/src/".len()..];
+        if let Some(q) = rest.find('/') {
+            return rest[q + 1..].to_string();
+        }
+    }
+    s.strip_prefix("/repo/").map(|x| x.to_string()).unwrap_or(s)
+}
 
 /// Progress line on stderr (and a note in the evidence).
 fn progress(run: &Run, what: &str) {
@@ -355,7 +368,12 @@ fn patho_list(tier: Tier) -> Vec<Patho> {
     };
     for shape in genr::BLOCK_SHAPES {
         // nested explicit keys cost O(depth^3) CPU (16 s at depth 2000 in release): their own ladder
-        let ladder: Vec<usize> = if shape == "complex-key" { vec![100, 200, 400, 700, 1000, 2001, 2010] } else { block_depths.clone() };
+        let ladder: Vec<usize> = match shape {
+            "complex-key" => vec![100, 200, 400, 700, 1000, 2001, 2010],
+            // far beyond the limit: only the budget stands between such an input and the stack
+            "seq-inline" => block_depths.iter().copied().chain([20_000, 100_000]).collect(),
+            _ => block_depths.clone(),
+        };
         for d in ladder {
             v.push(Patho { family: "block-nest", shape, param: d, bytes: genr::block_nest(shape, d) });
         }
@@ -468,8 +486,8 @@ fn probe_plan(pathos: &[Patho], tier: Tier, profile: &str) -> Vec<Probe> {
             }
             "block-nest" => {
                 let keep = match tier {
-                    Tier::Quick => [1999, 2000, 2001].contains(&p.param),
-                    Tier::Thorough => [1990, 1999, 2000, 2001, 2010].contains(&p.param),
+                    Tier::Quick => [1999, 2000, 2001, 100_000].contains(&p.param),
+                    Tier::Thorough => [1990, 1999, 2000, 2001, 2010, 20_000, 100_000].contains(&p.param),
                 };
                 if !keep {
                     continue;
@@ -834,6 +852,33 @@ fn main() {
         corpus.extend(extra);
     }
     run.count("corpus/total_documents", corpus.len() as u64);
+    let corpus = std::sync::Arc::new(corpus);
+    let pathos = std::sync::Arc::new(patho_list(tier));
+
+    // ---- 5 (thorough; runs beside parts 2-4, in its own processes): dev profile, sanitizers
+    let side = if tier == Tier::Thorough && part_on(5) {
+        let (corpus, pathos) = (corpus.clone(), pathos.clone());
+        Some(std::thread::spawn(move || -> Vec<String> {
+            let mut tools = Vec::new();
+            match san::build_dev() {
+                Err(e) => {
+                    eprintln!("harness error: dev-profile build of c01 failed (not a verdict):\n{e}");
+                    std::process::exit(2);
+                }
+                Ok(dev_exe) => {
+                    run_probes(run, &dev_exe, "dev", &pathos, tier);
+                    bisect_overflow(run, &dev_exe, "dev");
+                    progress(run, "dev child probes done");
+                    san::run_sanitizers(run, &corpus, &dev_exe, &mut tools);
+                    progress(run, "sanitizer shards done");
+                }
+            }
+            tools
+        }))
+    } else {
+        None
+    };
+
     // 2a. the corpus itself: every target, rotating entry point / option vector
     par_range(if part_on(2) { corpus.len() } else { 0 }, |i| {
         let d = &corpus[i];
@@ -901,6 +946,35 @@ fn main() {
             run.sample(|| json!({"part": "mutant", "mutations": kinds, "input_preview": text_preview(&d), "valid_utf8": is_utf8}));
         }
     });
+    // 2c. scalar spellings at the edges of the typed grammars, in typed contexts
+    {
+        let mut docs: Vec<String> = Vec::new();
+        for sc in genr::EDGE_SCALARS {
+            for cx in genr::EDGE_CONTEXTS {
+                docs.push(format!("{}\n", cx.replace('@', sc)));
+            }
+        }
+        let n_docs = if part_on(2) { docs.len() } else { 0 };
+        par_range(n_docs, |i| {
+            let d = docs[i].as_bytes();
+            let mut calls = 0;
+            for t in &all_targets {
+                for opt in 0..targets::N_OPTVEC {
+                    for e in [Entry::FromStr, Entry::ReaderC7] {
+                        let out = oracle::exercise(t, e, opt, d);
+                        if out.applicable {
+                            calls += 1;
+                            judge(run, &out, t.name(), e, opt, d, None, "edge-scalar grid");
+                        }
+                    }
+                }
+            }
+            run.evals(calls);
+            run.nontrivial(fnv_parts(&[b"edge", d]));
+            nt_calls.fetch_add(calls, Ordering::Relaxed);
+        });
+        run.count("edge_scalar_documents", docs.len() as u64);
+    }
     run.count("mutants", n_mut as u64);
     run.count("mutants_invalid_utf8", invalid_utf8_inputs.load(Ordering::Relaxed));
     for (k, c) in mut_kinds.iter().enumerate() {
@@ -909,7 +983,6 @@ fn main() {
     progress(run, "part 2 done");
 
     // ---- 3. pathological inputs, in-process (1 GiB worker stacks; stack verdicts are taken in children)
-    let pathos = patho_list(tier);
     {
         struct Job<'a> {
             p: &'a Patho,
@@ -918,7 +991,7 @@ fn main() {
             opt: usize,
         }
         let mut jobs = Vec::new();
-        for p in &pathos {
+        for p in pathos.iter() {
             if heavy(p) {
                 for (tn, e) in [("Val", Entry::FromStr), ("Ignored", Entry::ReaderC7), ("RcNest", Entry::FromStr)] {
                     if tn == "RcNest" && p.shape != "anchored-map" {
@@ -1004,22 +1077,15 @@ fn main() {
     }
     progress(run, "part 4 (release child probes) done");
 
-    // ---- 5. thorough: dev profile, sanitizers
     let mut fin_tools: Vec<String> = Vec::new();
-    if tier == Tier::Thorough && part_on(5) {
-        match san::build_dev() {
-            Err(e) => {
-                eprintln!("harness error: dev-profile build of c01 failed (not a verdict):\n{e}");
-                std::process::exit(2);
-            }
-            Ok(dev_exe) => {
-                run_probes(run, &dev_exe, "dev", &pathos, tier);
-                bisect_overflow(run, &dev_exe, "dev");
-                progress(run, "dev child probes done");
-                san::run_sanitizers(run, &corpus, &dev_exe, &mut fin_tools);
-            }
-        }
+    if tier == Tier::Thorough && part_on(4) {
         bisect_overflow(run, &exe, "release");
+    }
+    if let Some(h) = side {
+        match h.join() {
+            Ok(t) => fin_tools = t,
+            Err(_) => run.inconclusive("the dev-profile / sanitizer side thread panicked (harness)"),
+        }
     }
 
     // ---- evidence
